@@ -426,7 +426,9 @@ func checkC18Registry(sc *Scenario, acc *Acc) *c18Fail {
 
 // ---- fault scenarios ----------------------------------------------------------------
 
-var garbage = []string{"<p>ok</p>{{ ) }}", "line1\n{{ 1 + }}", "{{ 1 ~ 2 }}"}
+var garbage = []string{"<p>ok</p>{{ ) }}", "line1\n{{ 1 + }}", "{{ 1 ~ 2 }}",
+	// a comment that lost one of its closing braces, followed by an escaped directive
+	"<p>ok</p>{{-- note --}\\@if(true)a@end"}
 
 // parserRejects runs the repository's own lexer and parser on src.
 func parserRejects(src, path string, budget int64) (rejects bool, obs Obs) {
